@@ -1823,6 +1823,8 @@ where
                     // from it may be retired, so (unlike the Java code, which has a garbage
                     // collector) we only continue in the next table once it has replaced `table`.
                     while self.table.load(Ordering::SeqCst, guard) == table {
+                        #[cfg(flurry_verif)]
+                        crate::verif::at(crate::verif::SPIN, &[crate::verif::site::SPIN_CLEAR]);
                         std::thread::yield_now();
                     }
                     table = next_table;
